@@ -870,4 +870,24 @@ example :
     (step [{ cols := [{}, {}] }] (mkSt [[⟨1, [some 7, some 8]⟩]] [inst 0 1 [some 7, some 8]])
       (.create 0 false [(0, .ok (some 1)), (1, .bad2 (some 77))] []) none).1.log = [] := by decide
 
+/-- `child.set(parentCol=7, ownCol=<duplicate>)` on an inheritable child: the inherited column is assigned
+    on the parent instance (own UPDATE of the parent's row) before the child's own UPDATE is rejected:
+    a partial multi-column update across the two levels -/
+theorem C06_inheritable_set_parent_column_full_FALSE :
+    (step W5.sch (mkSt [[⟨1, [some 1, some 1]⟩, ⟨2, [some 2, some 1]⟩], [⟨1, [some 1, none]⟩, ⟨2, [some 2, none]⟩]]
+          [inst 0 1 [some 1, some 1], inst 1 1 [some 1, none]])
+        (.set 1 1 [(0, .ok (some 2))] [.parentAttr 0 0 (.ok (some 7))]) none).2 = some .duplicate ∧
+    (step W5.sch (mkSt [[⟨1, [some 1, some 1]⟩, ⟨2, [some 2, some 1]⟩], [⟨1, [some 1, none]⟩, ⟨2, [some 2, none]⟩]]
+          [inst 0 1 [some 1, some 1], inst 1 1 [some 1, none]])
+        (.set 1 1 [(0, .ok (some 2))] [.parentAttr 0 0 (.ok (some 7))]) none).1.core.tabs
+      = [[⟨1, [some 7, some 1]⟩, ⟨2, [some 2, some 1]⟩], [⟨1, [some 1, none]⟩, ⟨2, [some 2, none]⟩]] := by
+  decide
+
+/-- … while an invalid OWN value of the child is found before the inherited column is touched -/
+example :
+    AtomicSyn W5.sch (mkSt [[⟨1, [some 1, some 1]⟩], [⟨1, [some 1, none]⟩]] [inst 0 1 [some 1, some 1], inst 1 1 [some 1, none]])
+      (.set 1 1 [(0, .bad)] [.parentAttr 0 0 (.ok (some 7))]) none ∧
+    (step W5.sch (mkSt [[⟨1, [some 1, some 1]⟩], [⟨1, [some 1, none]⟩]] [inst 0 1 [some 1, some 1], inst 1 1 [some 1, none]])
+      (.set 1 1 [(0, .bad)] [.parentAttr 0 0 (.ok (some 7))]) none).1.log = [] := by decide
+
 end SqlObjVerif.Fail
